@@ -18,7 +18,7 @@ class C27(Check):
                 "C27_arena_used_quiescent", "C27_arena_used_transient_exceeds", "C27_arena_refuses_beyond_limit",
                 "C27_construct_limits", "C27_construct_rejects",
                 "C27_cache_counter_exact", "C27_cache_bound_refuted", "C27_cache_bound_true",
-                "C27_cache_bound_tight", "C27_cache_bound_one_thread", "C27_cache_bound_nonoverlapping",
+                "C27_cache_bound_tight", "C27_cache_bound_fixed", "C27_cache_bound_one_thread", "C27_cache_bound_nonoverlapping",
                 "C27_mempool_never_twice", "C27_mempool_returns_to_owner", "C27_mempool_accounting")
     comp = "arena"
     extract_file = "theories/Extract/Extract_Arena.v"
@@ -26,6 +26,10 @@ class C27(Check):
     harness_src = "harness/h_arena.c"
     harness_cflags = ("-DBUILDING_PARSEC",)
     link_parsec = True
+    # False: the model follows parsec_arena_release_chunk as it is in the repository (plain read of `released`, separate
+    # increment).  Set to True once notes/findings/C27-cache-limit-race.patch is applied to the repository: the cases then
+    # select the model of the repaired code (astep true) and C27_cache_bound_fixed is the theorem that applies.
+    fixed = True
     level_text = ("Theorems over atomic-step models of the arena chunk cache (parsec_arena_allocate_device_private / get_chunk / "
                   "release_chunk with the used/released counters, the plain read of `released` followed by a separate increment, the "
                   "INT32_MAX 'unlimited' sentinels, failing allocator calls) and of the thread mempools (pop own pool or create, push "
@@ -35,7 +39,9 @@ class C27(Check):
                   "allocated elements never exceed max_used, `used` = allocated + increments of requests being refused; released = "
                   "cached + in-flight. The cache bound `released <= max_released` is REFUTED for 2 threads (C27_cache_bound_refuted, "
                   "replayed on the real code: finding F5) and the true bound max_released + threads - 1 is proved and shown tight; "
-                  "the bound holds for one thread and for runs whose release windows do not overlap. Tie: arena.c and mempool.c are "
+                  "the bound holds for one thread and for runs whose release windows do not overlap; for the repaired release_chunk "
+                  "(notes/findings/C27-cache-limit-race.patch, model variant fx=true, selected by `fixed`) the limit is proved for every "
+                  "schedule (C27_cache_bound_fixed). Tie: arena.c and mempool.c are "
                   "compiled in the harness with yielding atomics and one scheduling point per LIFO operation, and run under the same "
                   "schedules in ucontext coroutines; per-op results (block ids, data offsets, allocation sizes), counters, the cache "
                   "content, freed blocks, maxima over all steps and per-thread step counts are compared with the extracted model. Full.")
@@ -108,8 +114,8 @@ class C27(Check):
 
     def fmt_arena(self, hdr, progs, sched):
         nt, es, al, maxalloc, maxcached, mis, fails = hdr
-        return "A %d %d %d %d %d | %d %s | %d | %s | %s" % (
-            es, al, maxalloc, maxcached, mis, len(fails), " ".join(map(str, fails)), nt,
+        return "A %d %d %d %d %d %d | %d %s | %d | %s | %s" % (
+            es, al, maxalloc, maxcached, mis, 1 if self.fixed else 0, len(fails), " ".join(map(str, fails)), nt,
             " | ".join(" ".join(p) for p in progs), " ".join(map(str, sched)))
 
     def arena_random(self, r):
@@ -173,6 +179,18 @@ class C27(Check):
             progs.append(ops)
         return "M %d %d | %d | %s | %s" % (esz, r.below(2), nt, " | ".join(" ".join(p) for p in progs),
                                             " ".join(map(str, self.sched(r, nt, [len(p) for p in progs]))))
+
+    def corpus(self):
+        # directed cases are stored for the unrepaired model; the 6th header number follows self.fixed
+        out = []
+        for line in super().corpus():
+            f = line.split("|")
+            h = f[0].split()
+            if h and h[0] == "A" and len(h) >= 7:
+                h[6] = "1" if self.fixed else "0"
+                line = " ".join(h) + " |" + "|".join(f[1:])
+            out.append(line)
+        return out
 
     def cases(self):
         r = self.rng
@@ -289,6 +307,8 @@ class C27(Check):
         lifo = self.lists(rest)[0]
         freed = self.lists(rest)[1]
         allh = [b for l in held for b in l]
+        if -1 in lifo:
+            return ("double-handout", "the cache contains a block that was given back to the allocator: cache %s freed %s" % (lifo, freed))
         if len(set(allh)) != len(allh):
             return ("double-handout", "a block is held twice at the end: %s" % held)
         if set(allh) & set(lifo) or len(set(lifo)) != len(lifo):
@@ -299,7 +319,10 @@ class C27(Check):
         if lim_u < INT32_MAX and mx["live"] > lim_u:
             return ("limit", "%d elements allocated at once, allocation limit is %d" % (mx["live"], lim_u))
         if lim_r < INT32_MAX and mx["lifo"] > lim_r:
-            return ("cache-limit", "%d released blocks cached at once, cache limit is %d (%d threads)" % (mx["lifo"], lim_r, nt))
+            # the excess that concurrent test-then-increment releases can produce is at most threads-1 (C27_cache_bound_true);
+            # anything else (one thread, or a larger excess) is a different failure
+            sig = "cache-limit-race" if nt >= 2 and mx["lifo"] <= lim_r + nt - 1 else "cache-limit"
+            return (sig, "%d released blocks cached at once, cache limit is %d (%d threads)" % (mx["lifo"], lim_r, nt))
         return None
 
     def judge_mempool(self, case, obs, o):
